@@ -91,7 +91,13 @@ func (s *Stream) Read(b []byte) (int, error) {
 					return 0, errors.New("additional HEADERS frame received after trailers")
 				}
 				s.parsedTrailer = true
-				return 0, s.parseTrailer(s.datagramStream, f)
+				if err := s.parseTrailer(s.datagramStream, f); err != nil {
+					// A malformed trailer section is a malformed message: stream error H3_MESSAGE_ERROR (RFC 9114, Section 4.1.2).
+					s.datagramStream.CancelRead(quic.StreamErrorCode(ErrCodeMessageError))
+					s.datagramStream.CancelWrite(quic.StreamErrorCode(ErrCodeMessageError))
+					return 0, err
+				}
+				return 0, nil
 			default:
 				s.conn.CloseWithError(quic.ApplicationErrorCode(ErrCodeFrameUnexpected), "")
 				// parseNextFrame skips over unknown frame types
